@@ -1,6 +1,6 @@
 from typing import Optional, Sequence, Union
 
-from numpy import ndarray
+from numpy import asarray, ndarray
 
 from mygrad.tensor_base import Tensor, implements_numpy_override
 from mygrad.typing import ArrayLike, DTypeLikeReals
@@ -10,7 +10,14 @@ from .ops import Concatenate, Stack
 __all__ = ["concatenate", "stack"]
 
 
+def _strongly_typed(tensors):
+    """The elements of a sequence are converted like ``numpy.asarray`` does: Python scalars
+    among them are not 'weakly typed' the way scalar operands of ufuncs are."""
+    return tuple(t if isinstance(t, Tensor) else asarray(t) for t in tensors)
+
+
 @implements_numpy_override()
+
 def concatenate(
     tensors: Sequence[ArrayLike],
     axis: Optional[int] = 0,
@@ -90,7 +97,7 @@ def concatenate(
     """
     return Tensor._op(
         Concatenate,
-        *tensors,
+        *_strongly_typed(tensors),
         op_kwargs={"axis": axis, "dtype": dtype},
         constant=constant,
         out=out,
@@ -167,7 +174,7 @@ def stack(
     """
     return Tensor._op(
         Stack,
-        *tensors,
+        *_strongly_typed(tensors),
         op_kwargs={"axis": axis},
         constant=constant,
         out=out,
